@@ -2,8 +2,11 @@
 //! (FDT instance id < 2^20, TSI < 2^48, Reed-Solomon max_n within its field, RaptorQ transfer length
 //! < 2^40) checked against what a REAL `flute::sender::Sender`, configured through the public API at and
 //! beyond those ranges, actually emits.  Every packet is read with the independent decoder `rfcdec`.
-//! Oracle-only (`ctx.oracle_fail`), plus a few `wire parse` / `wire rfc` ops so the Lean model sees the
-//! bytes.  Each class is NARROW - it fires only for its own input class, one line per session, and is
+//! Oracle-only, plus a few `wire parse` / `wire rfc` ops so the Lean model sees the bytes.  EVERY real-code
+//! call happens inside `Engine::exec` of the op `wire session sender-range <case> <params>` (model answer `ok`,
+//! `PANIC` if flute panics; watchdog-covered, replayable with `eng-wire exec`):
+//!   fdt-start-id <start> <rfc3926 0|1> <two instances 0|1> | tsi <tsi> | rs <fec> <B> <parity> | raptorq-tl <tl>
+//! the generator only emits the ops and reads the packets they stashed.  Each class is NARROW - it fires only for its own input class, one line per session, and is
 //! silent for a sender that either encodes the configured value or refuses the configuration:
 //!   C06:sender-fdt-start-id-ge-2^20   Config.fdt_start_id >= 2^20: EXT_FDT id != start & 0xFFFFF, version
 //!                                     damaged, or the session is not delivered by a real Receiver
@@ -18,6 +21,8 @@
 //!   C06:raptorq-tl                    RaptorQ transfer length 2^40 - 1 not carried exactly (control)
 use crate::generator::G;
 use crate::rewidth::{endpoint, run_rx, t0, Stream};
+use crate::Stash;
+use harness_core::Oracle;
 use crate::rfcdec as rd;
 use flute::core::lct::Cenc;
 use flute::core::Oti;
@@ -35,9 +40,10 @@ fn content(n: usize, salt: u8) -> Vec<u8> {
     (0..n).map(|i| (i as u8).wrapping_mul(31).wrapping_add(salt)).collect()
 }
 
-/// read the sender until it has nothing left (FDT carousel included); `None` on a sender panic / hang
+/// read the sender until it has nothing left (FDT carousel included); `None` if it never finishes.
+/// Panics propagate to the caller's `guarded`.
 fn drain(snd: &mut Sender, now: &mut SystemTime) -> Option<Stream> {
-    guarded(AssertUnwindSafe(|| {
+    {
         let mut out: Stream = Vec::new();
         let mut idle = 0;
         while out.len() < 5000 {
@@ -60,9 +66,7 @@ fn drain(snd: &mut Sender, now: &mut SystemTime) -> Option<Stream> {
             }
         }
         Some(out)
-    }))
-    .ok()
-    .flatten()
+    }
 }
 
 fn buffer_object(name: &str, data: Vec<u8>) -> Option<Box<ObjectDesc>> {
@@ -70,25 +74,32 @@ fn buffer_object(name: &str, data: Vec<u8>) -> Option<Box<ObjectDesc>> {
 }
 
 /// the model sees the first FDT packet and the first object packet of the session
-fn show_to_model(g: &mut G, stream: &Stream) {
-    let first_fdt = stream.iter().find(|(d, _)| rd::decode_lct(d).map_or(false, |f| f.toi == 0));
-    let first_obj = stream.iter().find(|(d, _)| rd::decode_lct(d).map_or(true, |f| f.toi != 0));
-    for (d, _) in first_fdt.into_iter().chain(first_obj) {
+fn show_to_model(g: &mut G, stream: &[Vec<u8>]) {
+    let first_fdt = stream.iter().find(|d| rd::decode_lct(d).map_or(false, |f| f.toi == 0));
+    let first_obj = stream.iter().find(|d| rd::decode_lct(d).map_or(true, |f| f.toi != 0));
+    for d in first_fdt.into_iter().chain(first_obj) {
         let h = hex(d);
         g.step(&format!("wire parse {}", h));
         g.step(&format!("wire rfc {}", h));
     }
 }
 
-fn add(g: &mut G, key: &str, n: usize) {
-    *g.ctx.dist.entry(key.to_string()).or_insert(0) += n as u64;
+fn add(st: &mut Stash, key: &str, n: usize) {
+    st.note(key, n as u64);
 }
+
+fn stash_stream(st: &mut Stash, stream: &Stream) {
+    st.produced = true;
+    st.stream = stream.iter().map(|(d, _)| d.clone()).collect();
+}
+
+/// `Err(location)` = flute panicked
+type Done = Result<(), String>;
 
 // ---------------------------------------------------------------------------------------------------
 // 1. Config.fdt_start_id
 // ---------------------------------------------------------------------------------------------------
-fn fdt_start_id(g: &mut G, start: u32, rfc3926: bool, two_instances: bool) {
-    g.ctx.case(&format!("sender-range/fdt-start-id-{:#x}{}{}", start, if rfc3926 { "-rfc3926" } else { "" }, if two_instances { "-2" } else { "" }));
+fn fdt_start_id(o: &mut Oracle, st: &mut Stash, start: u32, rfc3926: bool, two_instances: bool) -> Done {
     let class = if start >= (1 << 20) { "C06:sender-fdt-start-id-ge-2^20" } else { "C06:sender-fdt-id" };
     let what = format!("Config.fdt_start_id={:#x} profile={}", start, if rfc3926 { "RFC3926" } else { "RFC6726" });
     let tsi = 7;
@@ -113,14 +124,15 @@ fn fdt_start_id(g: &mut G, start: u32, rfc3926: bool, two_instances: bool) {
         }
         Some((stream, first_len))
     }));
-    let (stream, first_len) = match r {
-        Ok(Some(x)) => x,
-        _ => {
-            g.ctx.count("sender-range:fdt-start-id:session-refused-or-failed");
-            return;
+    let (stream, first_len) = match r? {
+        Some(x) => x,
+        None => {
+            add(st, "sender-range:fdt-start-id:session-refused-or-failed", 1);
+            return Ok(());
         }
     };
-    g.ctx.count("sender-range:fdt-start-id:sessions");
+    stash_stream(st, &stream);
+    add(st, "sender-range:fdt-start-id:sessions", 1);
     let want_v: u8 = if rfc3926 { 1 } else { 2 };
     let ids: Vec<u32> = (0..if two_instances { 2u32 } else { 1 }).map(|k| start.wrapping_add(k) & 0xFFFFF).collect();
     let mut bad: Vec<String> = Vec::new();
@@ -146,7 +158,7 @@ fn fdt_start_id(g: &mut G, start: u32, rfc3926: bool, two_instances: bool) {
             other => bad.push(format!("TOI-0 packet {} carries EXT_FDT (version, id) = {:?}, expected version {} id in {:?}: {}", i, other, want_v, allowed, crate::short(&hex(d)))),
         }
     }
-    add(g, "sender-range:fdt-start-id:toi0-packets", nb_fdt);
+    add(st, "sender-range:fdt-start-id:toi0-packets", nb_fdt);
     if nb_fdt == 0 || !seen_last {
         bad.push(format!("no TOI-0 packet carries the latest FDT instance id {:?} ({} TOI-0 packets)", ids.last(), nb_fdt));
     }
@@ -157,23 +169,25 @@ fn fdt_start_id(g: &mut G, start: u32, rfc3926: bool, two_instances: bool) {
     let mut sent: Vec<&Vec<u8>> = objs[..nobj].iter().collect();
     got.sort();
     sent.sort();
-    if rx.panic.is_some() || got != sent {
+    if got != sent {
         bad.push(format!("a real Receiver delivers {} of {} objects (FDT instances received: {}, push errors: {}, panic: {:?})", got.len(), nobj, rx.fdts.len(), rx.push_errors, rx.panic));
     }
     if !bad.is_empty() {
-        add(g, &format!("sender-range:fires:{}", class), bad.len());
-        g.ctx.oracle_fail(class, &format!("{}: {} problem(s), first: {}", what, bad.len(), bad[0]));
+        add(st, &format!("sender-range:fires:{}", class), bad.len());
+        o.fail(class, &format!("{}: {} problem(s), first: {}", what, bad.len(), bad[0]));
     } else {
-        g.ctx.nontrivial(&format!("sender-range:fdt:{}:{}:{}", start, rfc3926, two_instances));
+        st.nontrivial.push(format!("sender-range:fdt:{}:{}:{}", start, rfc3926, two_instances));
     }
-    show_to_model(g, &stream);
+    match rx.panic {
+        Some(loc) => Err(loc),
+        None => Ok(()),
+    }
 }
 
 // ---------------------------------------------------------------------------------------------------
 // 2. TSI
 // ---------------------------------------------------------------------------------------------------
-fn tsi_range(g: &mut G, tsi: u64) {
-    g.ctx.case(&format!("sender-range/tsi-{:#x}", tsi));
+fn tsi_range(o: &mut Oracle, st: &mut Stash, tsi: u64) -> Done {
     let class = if tsi >= (1 << 48) { "C06:sender-tsi-ge-2^48" } else { "C06:sender-tsi" };
     let oti = Oti::new_no_code(64, 16);
     let r = guarded(AssertUnwindSafe(|| -> Option<Stream> {
@@ -183,19 +197,20 @@ fn tsi_range(g: &mut G, tsi: u64) {
         snd.publish(now).ok()?;
         drain(&mut snd, &mut now)
     }));
-    let stream = match r {
-        Ok(Some(x)) => x,
-        _ => {
-            g.ctx.count("sender-range:tsi:session-refused-or-failed");
-            return;
+    let stream = match r? {
+        Some(x) => x,
+        None => {
+            add(st, "sender-range:tsi:session-refused-or-failed", 1);
+            return Ok(());
         }
     };
-    g.ctx.count("sender-range:tsi:sessions");
-    add(g, "sender-range:tsi:packets", stream.len());
+    stash_stream(st, &stream);
+    add(st, "sender-range:tsi:sessions", 1);
+    add(st, "sender-range:tsi:packets", stream.len());
     let wrong: Vec<&Vec<u8>> = stream.iter().map(|(d, _)| d).filter(|d| rd::decode_lct(d).map_or(true, |f| f.tsi != tsi)).collect();
     if let Some(d) = wrong.first() {
-        add(g, &format!("sender-range:fires:{}", class), wrong.len());
-        g.ctx.oracle_fail(
+        add(st, &format!("sender-range:fires:{}", class), wrong.len());
+        o.fail(
             class,
             &format!(
                 "Sender::new(tsi={}) : {} of {} packets do not carry the session's TSI, e.g. the independent decoder reads TSI={:?} ({} bits) in {}",
@@ -208,16 +223,15 @@ fn tsi_range(g: &mut G, tsi: u64) {
             ),
         );
     } else {
-        g.ctx.nontrivial(&format!("sender-range:tsi:{}", tsi));
+        st.nontrivial.push(format!("sender-range:tsi:{}", tsi));
     }
-    show_to_model(g, &stream);
+    Ok(())
 }
 
 // ---------------------------------------------------------------------------------------------------
 // 3. Reed-Solomon B / max_n
 // ---------------------------------------------------------------------------------------------------
-fn rs_range(g: &mut G, fec: u8, b: u32, parity: u32) {
-    g.ctx.case(&format!("sender-range/rs-fec{}-B{}-p{}", fec, b, parity));
+fn rs_range(o: &mut Oracle, st: &mut Stash, fec: u8, b: u32, parity: u32) -> Done {
     let limit: u64 = if fec == 5 { 255 } else { 65535 };
     let in_range = b as u64 <= limit && b as u64 + parity as u64 <= limit;
     let class = match (in_range, fec) {
@@ -226,8 +240,8 @@ fn rs_range(g: &mut G, fec: u8, b: u32, parity: u32) {
         (false, _) => "C06:sender-rs28us-maxn-wrap",
     };
     let e: u16 = 64;
-    let Some(oti) = hk::make_oti(fec, 0, b, e, parity, None, true) else { return };
     let r = guarded(AssertUnwindSafe(|| -> Option<Stream> {
+        let oti = hk::make_oti(fec, 0, b, e, parity, None, true)?;
         let mut snd = Sender::new(endpoint(), 9, &oti, &sender::Config::default());
         let mut now = t0();
         // a 1-symbol object
@@ -235,15 +249,16 @@ fn rs_range(g: &mut G, fec: u8, b: u32, parity: u32) {
         snd.publish(now).ok()?;
         drain(&mut snd, &mut now)
     }));
-    let stream = match r {
-        Ok(Some(x)) => x,
-        _ => {
+    let stream = match r? {
+        Some(x) => x,
+        None => {
             // refusing an OTI that does not fit the EXT_FTI is the correct behaviour
-            g.ctx.count(&format!("sender-range:rs:fec{}-B{}-p{}:refused-by-the-sender", fec, b, parity));
-            return;
+            add(st, &format!("sender-range:rs:fec{}-B{}-p{}:refused-by-the-sender", fec, b, parity), 1);
+            return Ok(());
         }
     };
-    g.ctx.count(&format!("sender-range:rs:fec{}-B{}-p{}:packets-produced", fec, b, parity));
+    stash_stream(st, &stream);
+    add(st, &format!("sender-range:rs:fec{}-B{}-p{}:packets-produced", fec, b, parity), 1);
     let mut nb_fti = 0;
     let mut wrong: Vec<String> = Vec::new();
     for (d, _) in &stream {
@@ -262,17 +277,17 @@ fn rs_range(g: &mut G, fec: u8, b: u32, parity: u32) {
             wrong.push(format!("EXT_FTI carries B={} max_n={} in {}", gb, gn, crate::short(&hex(d))));
         }
     }
-    add(g, "sender-range:rs:packets-with-fti", nb_fti);
+    add(st, "sender-range:rs:packets-with-fti", nb_fti);
     if let Some(w) = wrong.first() {
-        add(g, &format!("sender-range:fires:{}", class), wrong.len());
-        g.ctx.oracle_fail(
+        add(st, &format!("sender-range:fires:{}", class), wrong.len());
+        o.fail(
             class,
             &format!("sender accepts the FEC {} OTI B={} parity={} (max_n={}): {} of {} EXT_FTI do not carry it, e.g. {}", fec, b, parity, b as u64 + parity as u64, wrong.len(), nb_fti, w),
         );
     } else if nb_fti > 0 {
-        g.ctx.nontrivial(&format!("sender-range:rs:{}:{}:{}", fec, b, parity));
+        st.nontrivial.push(format!("sender-range:rs:{}:{}:{}", fec, b, parity));
     }
-    show_to_model(g, &stream);
+    Ok(())
 }
 
 // ---------------------------------------------------------------------------------------------------
@@ -310,55 +325,99 @@ impl std::io::Seek for Sparse {
     }
 }
 
-fn raptorq_tl(g: &mut G, tl: u64) {
-    g.ctx.case(&format!("sender-range/raptorq-tl-{:#x}", tl));
+const RQ_B: u32 = 1 << 24;
+const RQ_E: u16 = 65535;
+
+fn raptorq_tl(o: &mut Oracle, st: &mut Stash, tl: u64) -> Done {
     let class = if tl >= (1 << 40) { "C06:raptorq-tl-ge-2^40" } else { "C06:raptorq-tl" };
-    // B and E large enough for <= 255 source blocks, so that only the transfer-length cap can refuse
-    let (b, e) = (1u32 << 24, 65535u16);
-    let Some(oti) = hk::make_oti(6, 0, b, e, 0, Some((1, 1, 1, 1)), true) else { return };
-    // does the real sender accept an object of this transfer length ?  (nothing is read from the source)
-    let accepted = guarded(AssertUnwindSafe(|| -> Option<bool> {
+    // B and E large enough for <= 255 source blocks, so that only the transfer-length cap can refuse.
+    // Does the real sender accept an object of this transfer length ?  (nothing is read from the source)
+    let r = guarded(AssertUnwindSafe(|| -> Option<(bool, usize, Vec<u8>)> {
+        let oti = hk::make_oti(6, 0, RQ_B, RQ_E, 0, Some((1, 1, 1, 1)), true)?;
         let mut snd = Sender::new(endpoint(), 11, &oti, &sender::Config::default());
         let desc = ObjectDesc::create_from_stream(Box::new(Sparse { len: tl, pos: 0 }), "application/octet-stream", &url("huge.bin"), false, TransferConfig { cenc: Cenc::Null, ..Default::default() }).ok()?;
         if desc.transfer_length != tl {
             return None;
         }
-        Some(snd.add_object(0, desc).is_ok())
+        let accepted = snd.add_object(0, desc).is_ok();
+        // what the packet builder puts on the wire for this object (the object packets of the real session would
+        // need a 1 TB source): an in-band-FTI object packet, the same packet as the generator's `pkt` op
+        let pkt = hk::PktFields {
+            payload: Vec::new(),
+            transfer_length: tl,
+            esi: 0,
+            sbn: 0,
+            toi: 1,
+            fdt_id: None,
+            cenc: Cenc::Null,
+            inband_cenc: false,
+            close_object: false,
+            source_block_length: 0,
+            sender_current_time: false,
+        };
+        Some((accepted, oti.max_transfer_length(), hk::new_alc_pkt(&oti, &0u128, 11, &pkt, false, std::time::UNIX_EPOCH)))
     }));
-    let accepted = match accepted {
-        Ok(Some(a)) => a,
-        _ => {
-            g.ctx.count("sender-range:raptorq-tl:object-not-constructible");
-            return;
+    let (accepted, cap, bytes) = match r? {
+        Some(x) => x,
+        None => {
+            add(st, "sender-range:raptorq-tl:object-not-constructible", 1);
+            return Ok(());
         }
     };
-    g.ctx.count(&format!("sender-range:raptorq-tl:{:#x}:{}", tl, if accepted { "accepted-by-the-sender" } else { "refused-by-the-sender" }));
-    // what the packet builder puts on the wire for this object (the object packets of the real session would
-    // need a 1 TB source): EXT_FTI of an in-band-FTI object packet
-    let op = format!("wire pkt 6 0 {} {} 0 rq:1:1:1 1 0 11 1 - 0 0 0 0 - 0 {} 0 0 -", b, e, tl);
-    let obs = g.step(&op);
-    let wire_tl = obs.strip_prefix("ok ").and_then(rd::unhex).and_then(|d| rd::decode_packet(&d)).and_then(|p| p.fti).map(|v| v[0]);
+    add(st, &format!("sender-range:raptorq-tl:{:#x}:{}", tl, if accepted { "accepted-by-the-sender" } else { "refused-by-the-sender" }), 1);
+    let wire_tl = rd::decode_packet(&bytes).and_then(|p| p.fti).map(|v| v[0]);
     if accepted && wire_tl != Some(tl) {
-        add(g, &format!("sender-range:fires:{}", class), 1);
-        g.ctx.oracle_fail(
+        add(st, &format!("sender-range:fires:{}", class), 1);
+        o.fail(
             class,
             &format!(
-                "Sender::add_object accepts a RaptorQ object of transfer length {} (Oti::max_transfer_length() = {}), but the 40-bit F field of its EXT_FTI carries {:?} :: op `{}` -> `{}`",
+                "Sender::add_object accepts a RaptorQ object of transfer length {} (Oti::max_transfer_length() = {}), but the 40-bit F field of its EXT_FTI carries {:?} in {}",
                 tl,
-                oti.max_transfer_length(),
+                cap,
                 wire_tl,
-                op,
-                obs
+                hex(&bytes)
             ),
         );
     } else {
-        g.ctx.nontrivial(&format!("sender-range:raptorq-tl:{}:{}", tl, accepted));
+        st.nontrivial.push(format!("sender-range:raptorq-tl:{}:{}", tl, accepted));
     }
-    if let Some(h) = obs.strip_prefix("ok ") {
-        let h = h.to_string();
-        g.step(&format!("wire parse {}", h));
-        g.step(&format!("wire rfc {}", h));
+    Ok(())
+}
+
+/// `wire session sender-range <case> <params>`
+pub(crate) fn exec(t: &[&str], o: &mut Oracle, st: &mut Stash) -> Option<String> {
+    let n = |s: &str, bits: u32| crate::nat_lt(s, bits);
+    let done = match (*t.first()?, t.len()) {
+        ("fdt-start-id", 4) => fdt_start_id(o, st, n(t[1], 32)? as u32, crate::b01(t[2])?, crate::b01(t[3])?),
+        ("tsi", 2) => tsi_range(o, st, n(t[1], 64)? as u64),
+        ("rs", 4) if t[1] == "5" || t[1] == "129" => rs_range(o, st, n(t[1], 8)? as u8, n(t[2], 32)? as u32, n(t[3], 32)? as u32),
+        ("raptorq-tl", 2) => raptorq_tl(o, st, n(t[1], 64)? as u64),
+        _ => return None,
+    };
+    Some(match done {
+        Ok(()) => "ok".to_string(),
+        Err(loc) => {
+            st.note(&format!("sender-range:panic:{}", loc), 1);
+            "PANIC".to_string()
+        }
+    })
+}
+
+/// generator side: the op, then the statistics and the packets it stashed
+fn session(g: &mut G, case: &str, params: &str) {
+    g.ctx.case(&format!("sender-range/{}-{}", case, params.replace(' ', "-")));
+    g.step(&format!("wire session sender-range {} {}", case, params));
+    let (stream, notes, keys) = {
+        let mut st = g.stash.borrow_mut();
+        (std::mem::take(&mut st.stream), std::mem::take(&mut st.notes), std::mem::take(&mut st.nontrivial))
+    };
+    for (k, n) in notes {
+        *g.ctx.dist.entry(k).or_insert(0) += n;
     }
+    for k in keys {
+        g.ctx.nontrivial(&k);
+    }
+    show_to_model(g, &stream);
 }
 
 pub fn run(g: &mut G) {
@@ -371,15 +430,22 @@ pub fn run(g: &mut G) {
         (0x0100_0005, true, false),
         (0xFFFF_FFFF, false, true),
     ] {
-        fdt_start_id(g, start, rfc3926, two);
+        session(g, "fdt-start-id", &format!("{} {} {}", start, rfc3926 as u8, two as u8));
     }
     for tsi in [(1u64 << 48) - 1, 1 << 48, (1 << 48) + 5, u64::MAX] {
-        tsi_range(g, tsi);
+        session(g, "tsi", &tsi.to_string());
     }
     for (fec, b, parity) in [(5u8, 200u32, 55u32), (5, 200, 56), (5, 255, 1), (5, 300, 4), (129, 65534, 1), (129, 65535, 1), (129, 40000, 30000), (129, 70000, 2)] {
-        rs_range(g, fec, b, parity);
+        session(g, "rs", &format!("{} {} {}", fec, b, parity));
     }
     for tl in [(1u64 << 40) - 1, 1 << 40, (1 << 40) + 9, (1 << 44) - 1] {
-        raptorq_tl(g, tl);
+        session(g, "raptorq-tl", &tl.to_string());
+        // the model sees the bytes of the packet the session op examined
+        let obs = g.step(&format!("wire pkt 6 0 {} {} 0 rq:1:1:1 1 0 11 1 - 0 0 0 0 - 0 {} 0 0 -", RQ_B, RQ_E, tl));
+        if let Some(h) = obs.strip_prefix("ok ") {
+            let h = h.to_string();
+            g.step(&format!("wire parse {}", h));
+            g.step(&format!("wire rfc {}", h));
+        }
     }
 }
